@@ -234,6 +234,10 @@ def _parse_extract(lines, i, path):
             w = d.split()
             if d == "end":
                 close()
+                for _c in spec["closures"].values():
+                    if _c.get("auto") is True:
+                        _c["auto"] = spec.get("automap", [])
+                spec.pop("automap", None)
                 return spec, i + 1
             if w[0] == "props":
                 close()
@@ -293,6 +297,12 @@ def _parse_extract(lines, i, path):
             elif w[0] == "body_start":
                 close()
                 cur = ("anchor", {"where": "body_start"})
+            elif w[0] == "automap":
+                close()
+                m = BT.findall(d)
+                if len(m) != 2:
+                    raise UnitError(f"{path}:{i+1}: automap needs `method` => `template`")
+                spec.setdefault("automap", []).append([m[0], m[1]])
             elif w[0] == "closure":
                 close()
                 k = w[1]
@@ -304,6 +314,8 @@ def _parse_extract(lines, i, path):
                 rt = BT.findall(after_ret)
                 if rt:
                     c["ret"] = rt[0]
+                if after_ret.rstrip().endswith(" auto"):
+                    c["auto"] = True     # R14: resolved against the block's automap lines at `end`
                 spec["closures"][k] = c
                 cur = ("closure", k)
             else:
